@@ -343,6 +343,17 @@ class _Subst(ast.NodeTransformer):
             raise _Skip("parameter bound to an expression is assigned")
         return ast.copy_location(clone(r), node)
 
+    def visit_Lambda(self, node):
+        # a lambda is a scope of its own: its parameter names are part of its signature (keyword calls) and shadow the
+        # helper's names in its body - they are neither renamed nor substituted
+        a = node.args
+        own = {x.arg for x in a.posonlyargs + a.args + a.kwonlyargs} | ({a.vararg.arg} if a.vararg else set()) | ({a.kwarg.arg} if a.kwarg else set())
+        a.defaults = [self.visit(d) for d in a.defaults]
+        a.kw_defaults = [self.visit(d) if d is not None else None for d in a.kw_defaults]
+        inner = _Subst({k: v for k, v in self.names.items() if k not in own}) if own & set(self.names) else self
+        node.body = inner.visit(node.body)
+        return node
+
     def visit_arg(self, node):
         r = self.names.get(node.arg)
         if isinstance(r, str):
@@ -1111,12 +1122,62 @@ def expand_constants(repo) -> list[str]:
     return log
 
 
+def expand_own_properties(repo) -> list[str]:
+    """Read-only properties of private classes that are one pure expression over `self` (`erased` → `self.value is None`) are
+    written out where the class's own methods read them through `self`: the method then says what it tests, whichever spelling
+    its author chose.  Properties with a setter / deleter, overridden ones and reads through other receivers stay as they are."""
+    log = []
+    for m in repo.pkg_modules():
+        for c in m.classes.values():
+            if not c.name.startswith("_") or getattr(c, "external", False):
+                continue
+            for pname, acc in c.props.items():
+                if set(acc) != {"get"}:
+                    continue
+                g = acc["get"]
+                if any(pname in k.props or pname in k.methods or pname in k.class_attrs for k in repo.subclasses(c)):
+                    continue
+                e = _as_single_expr(g.node.body)
+                if e is None or not _pure_read(e) or not g.params:
+                    continue
+                selfname = g.params[0]
+                names = {x.id for x in ast.walk(e) if isinstance(x, ast.Name)}
+                if not names <= {selfname, "None", "True", "False"}:
+                    continue
+                n_sites = 0
+                for f in c.methods.values():
+                    if f is g or not f.params or isinstance(f.node, ast.Lambda):
+                        continue
+                    me = f.params[0]
+                    for x in list(ast.walk(f.node)):
+                        if isinstance(x, ast.Attribute) and x.attr == pname and isinstance(x.ctx, ast.Load) and isinstance(x.value, ast.Name) and x.value.id == me:
+                            new = clone(e)
+                            for y in ast.walk(new):
+                                if isinstance(y, ast.Name) and y.id == selfname:
+                                    y.id = me
+                            par = getattr(x, "_parent", None)
+                            if par is None:
+                                continue
+                            ast.copy_location(new, x)
+                            if _replace_node(par, x, new):
+                                for y in ast.walk(new):
+                                    for ch in ast.iter_child_nodes(y):
+                                        ch._parent = y
+                                new._parent = par
+                                n_sites += 1
+                if n_sites:
+                    log.append(f"{c.key}.{pname}: written out at {n_sites} read(s) through self")
+    return log
+
+
 def expand_helpers(repo) -> dict:
     """Rewrite the trees of `repo` (an index built WITHOUT this pass) in place; returns statistics."""
     from .types import Typer
 
+    prop_log = expand_own_properties(repo)
     inl = Inliner(repo, Typer(repo, None))
     stats = inl.run()
+    inl.log += prop_log
     inl.log += expand_constants(repo)
     stats["log"] = inl.log
     stats["into"] = {k: sorted(v) for k, v in inl.into.items()}
